@@ -26,7 +26,7 @@ use proptest::prelude::*;
 use sha2::{Digest, Sha256};
 use vh_common::rand::{Rng, RngCore, seq::SliceRandom};
 use vh_common::rand_chacha::ChaCha20Rng;
-use vh_common::{Args, Reporter, Value, draw, guard, hexs, json, panic_class};
+use vh_common::{Args, Reporter, Value, draw, guard, hexs, json};
 
 use zcash_address::unified::{self, Container, Encoding, Fvk, Ivk, Receiver};
 use zcash_address::{ConversionError, ToAddress, TryFromAddress, ZcashAddress};
@@ -50,6 +50,16 @@ impl Parameters for P {
     }
     fn activation_height(&self, _nu: NetworkUpgrade) -> Option<BlockHeight> {
         None
+    }
+}
+
+/// `vh_common::panic_class`, additionally cut at the first '[': some panics of the code under test
+/// print the offending byte array, which must not become part of a class signature.
+fn panic_class(p: &str) -> String {
+    let c = vh_common::panic_class(p);
+    match (c.find('['), c.rsplit_once(" @ ")) {
+        (Some(i), Some((_, file))) if i < c.len() - file.len() => format!("{} @ {file}", c[..i].trim_end()),
+        _ => c,
     }
 }
 
@@ -658,9 +668,14 @@ fn container_case(c: &mut Ctx, kind: &'static str, net: NetworkType, items: &[(u
             let _ = p;
             c.r.count("container_outside_f4jumble_domain", 1);
         }
-        (Err(p), _) => c.viol(
+        (Err(p), Err(why)) => c.viol(
+            &format!("container-invalid-items-panic:{kind}:{why}"),
+            format!("an item set that ZIP 316 forbids ({why}) was not refused but panicked: {}", clip(&p)),
+            replay,
+        ),
+        (Err(p), Ok(())) => c.viol(
             &format!("container-panic:{kind}:{}", panic_class(&p)),
-            format!("panicked: {p}"),
+            format!("panicked: {}", clip(&p)),
             replay,
         ),
         (Ok(Err(e)), Ok(())) => {
@@ -1038,7 +1053,6 @@ fn section_mutants(c: &mut Ctx, n: u64, frac: f64) {
             continue;
         }
         let (s, kind) = mutate(c, &base);
-        let is_container = base.starts_with("uview") || base.starts_with("uivk");
         let api = if base.starts_with("uview") {
             "ufvk"
         } else if base.starts_with("uivk") {
@@ -1046,7 +1060,6 @@ fn section_mutants(c: &mut Ctx, n: u64, frac: f64) {
         } else {
             "zaddr"
         };
-        let _ = is_container;
         let o = c.observe(api, &s, "mutant").ok().flatten();
         c.r.case(&("mutant", api, kind, o.as_ref().map(|o| o.obs.kind())), true);
         c.r.count(if o.is_some() { "mutants_accepted" } else { "mutants_rejected" }, 1);
